@@ -8,7 +8,7 @@ V="$(cd "$(dirname "$(readlink -f "$0")")/.." && pwd)"
 wt="$(mktemp -d /dev/shm/seeded-XXXXXX)"; rmdir "$wt"
 git -C /repo worktree add -q --detach "$wt" HEAD || exit 3
 trap 'git -C /repo worktree remove --force "$wt" >/dev/null 2>&1; rm -rf "$wt"' EXIT
-if ! git -C "$wt" apply "$src/patch.diff"; then echo "PATCH-FAILED $id"; exit 3; fi
+if ! git -C "$wt" apply "$src/patch.diff" 2>/dev/null && ! git -C "$wt" apply -3 "$src/patch.diff"; then echo "PATCH-FAILED $id"; exit 3; fi
 tests="$(cd "$wt" && PYTHONPATH="$wt/src" timeout 900 /venv/bin/python -m pytest -q -p no:cacheprovider 2>&1 | tail -1)"
 PYTHONPATH="$wt/src" timeout 300 /venv/bin/python "$src/demo.py" >/dev/null 2>&1; with=$?
 PYTHONPATH=/repo/src timeout 300 /venv/bin/python "$src/demo.py" >/dev/null 2>&1; without=$?
@@ -23,7 +23,7 @@ for p in "$@"; do
   results="$results{\"check\": \"$p\", \"tier\": \"${TIER:-quick}\", \"result\": \"$r\", \"sig\": \"$sig\"},"
 done
 mkdir -p "$V/seeded/$id"
-cp "$src/patch.diff" "$src/demo.py" "$V/seeded/$id/"
+cp "$src/demo.py" "$V/seeded/$id/"; git -C "$wt" diff HEAD -- src > "$V/seeded/$id/patch.diff"
 /venv/bin/python - "$src/meta.json" "$V/seeded/$id/meta.json" "$tests" "$with" "$without" "[${results%,}]" <<'PY'
 import json, sys
 m = json.load(open(sys.argv[1]))
